@@ -490,7 +490,7 @@ type OpenIDKeySet struct {
 func (o *OpenIDKeySet) VerifySignature(ctx context.Context, jws *jose.JSONWebSignature) ([]byte, error) {
 	keySet, err := o.Storage.KeySet(ctx)
 	if err != nil {
-		return nil, fmt.Errorf("error fetching keys: %w", err)
+		return nil, keySetError{fmt.Errorf("error fetching keys: %w", err)}
 	}
 	keyID, alg := oidc.GetKeyIDAndAlg(jws)
 	key, err := oidc.FindMatchingKey(keyID, oidc.KeyUseSignature, alg, jsonWebKeySet(keySet).Keys...)
@@ -498,6 +498,16 @@ func (o *OpenIDKeySet) VerifySignature(ctx context.Context, jws *jose.JSONWebSig
 		return nil, fmt.Errorf("invalid signature: %w", err)
 	}
 	return jws.Verify(&key)
+}
+
+// keySetError is returned when the keys could not be obtained from the Storage,
+// as opposed to a signature that does not verify.
+type keySetError struct {
+	error
+}
+
+func (e keySetError) Unwrap() error {
+	return e.error
 }
 
 type Option func(o *Provider) error
